@@ -117,8 +117,13 @@ var curated = []string{
 	"T | where 1e3 < a and .5 > b and 007 == c",
 }
 
-// GenPool generates the workload pool for a base seed.
-func GenPool(seed uint64, nGenerated int) []*Key {
+// GenPool generates the workload pool for a base seed: every source under several parameter maps.
+func GenPool(seed uint64, nGenerated int) []*Key { return genPool(seed, nGenerated, false) }
+
+// GenPoolWide generates a pool with many distinct sources and few variants of each (long histories).
+func GenPoolWide(seed uint64, nGenerated int) []*Key { return genPool(seed, nGenerated, true) }
+
+func genPool(seed uint64, nGenerated int, wide bool) []*Key {
 	seen := map[string]bool{}
 	var keys []*Key
 	add := func(api, src string, params [][2]string, tags ...string) {
@@ -167,13 +172,20 @@ func GenPool(seed uint64, nGenerated int) []*Key {
 		if i < len(curated) {
 			np = 2
 		}
+		if wide {
+			np = r.Intn(2)
+		}
 		for j := 0; j < np; j++ {
 			ps := paramSets[r.Intn(len(paramSets))]
 			cp := append([][2]string(nil), ps...)
 			sort.Slice(cp, func(a, b int) bool { return cp[a][0] < cp[b][0] })
 			add("compile", src, cp)
 		}
-		switch r.Intn(4) {
+		apis := 4
+		if wide {
+			apis = 12
+		}
+		switch r.Intn(apis) {
 		case 0:
 			add("parse", src, nil)
 		case 1:
